@@ -25,13 +25,18 @@ def cnt (p : Writer → Bool) (s : CState) : Nat :=
     `chunk = <-pool`) -/
 def chunkTok (s : CState) : Nat := b2n (s.m.chunk.isSome && s.pc != .pushRecv)
 
-structure Str (s : CState) : Prop where
+/-- the structural invariant, with the number `B` of chunk buffers in circulation as a parameter:
+    2 in general (`Str`: the chunk made by `New` and the one `Push` makes when it receives the
+    pre-seeded `nil`), 1 in sequential mode (`pool` starts empty) -/
+structure StrB (B : Nat) (s : CState) : Prop where
   wg : s.wg = cnt live s
   chan : s.writable.buf.length = cnt atRecv s
-  cap : s.m.pool + cnt holding s + s.writable.buf.length + chunkTok s ≤ 2
+  cap : s.m.pool + cnt holding s + s.writable.buf.length + chunkTok s ≤ B
   recv : s.pc = .pushRecv → 1 ≤ s.m.pool + cnt holding s + s.writable.buf.length
   wcap : s.writable.cap = 1
   inlLive : s.pc = .finWrite → s.inl.pc ≠ .done
+
+abbrev Str (s : CState) : Prop := StrB 2 s
 
 theorem countP_set' {α} (p : α → Bool) (l : List α) (i : Nat) (a : α) (h : i < l.length) :
     (l.set i a).countP p + b2n (p l[i]) = l.countP p + b2n (p a) := by
@@ -225,10 +230,10 @@ theorem cnt_eq_of (p : Writer → Bool) {s t : CState} (hw : t.writers = s.write
   simp [hw, e1, e2, b2n]
 
 /-- a caller block outside `m.write()` that spawns nothing -/
-theorem Str_caller {s t : CState} (hs : Str s)
+theorem Str_caller {B : Nat} {s t : CState} (hs : StrB B s)
     (hwr : t.writers = s.writers) (hwb : t.writable = s.writable) (hwg : t.wg = s.wg)
     (hpc1 : s.pc ≠ .finWrite) (hpc2 : t.pc ≠ .finWrite) (hpc3 : t.pc ≠ .pushRecv)
-    (htok : t.m.pool + chunkTok t ≤ s.m.pool + chunkTok s) : Str t := by
+    (htok : t.m.pool + chunkTok t ≤ s.m.pool + chunkTok s) : StrB B t := by
   have hc : ∀ p, cnt p t = cnt p s := fun p => cnt_eq_of p hwr hpc1 hpc2
   refine ⟨by rw [hwg, hc]; exact hs.wg, by rw [hwb, hc]; exact hs.chan, ?_, fun h => absurd h hpc3,
           by rw [hwb]; exact hs.wcap, fun h => absurd h hpc2⟩
@@ -242,8 +247,8 @@ theorem chunkTok_idle {s : CState} (h : s.pc ≠ .pushRecv) : chunkTok s = b2n s
   simp [this]
 
 /-- finishing a call after a `Frame` operation -/
-theorem Str_finishOp {s s1 : CState} (hs : Str s) (hidle : s.pc = .idle) (hf : Frame s s1)
-    (r : Res) (v : Option Elem) : Str (finishOp s1 r v) := by
+theorem Str_finishOp {B : Nat} {s s1 : CState} (hs : StrB B s) (hidle : s.pc = .idle) (hf : Frame s s1)
+    (r : Res) (v : Option Elem) : StrB B (finishOp s1 r v) := by
   apply Str_caller hs (t := finishOp s1 r v)
   · exact hf.writers
   · exact hf.writable
@@ -269,31 +274,31 @@ theorem holding_new : holding ({} : Writer) = false := rfl
 theorem done_false {w : Writer} (h : w.pc = .done) : live w = false ∧ atRecv w = false ∧ holding w = false := by
   simp [live, atRecv, holding, h]
 
-theorem Str_init (conc : Bool) (c : Nat) (ac acl : Bool) (prog : List Op) (flt : Fault) :
-    Str (initState conc c ac acl prog flt) := by
+theorem Str_init (conc : Bool) (c : Nat) (ac acl : Bool) (prog : List Op) (flt : Fault) (reuse : Bool := false) :
+    Str (initState conc c ac acl prog flt reuse) := by
   refine ⟨rfl, rfl, ?_, fun h => by simp [initState] at h, rfl, fun h => by simp [initState] at h⟩
   cases conc <;> simp [initState, cnt, chunkTok, b2n]
 
 /-- a caller block that ends between calls and spawns nothing -/
-theorem Str_idle {s t : CState} (hs : Str s) (hfrom : s.pc ≠ .finWrite)
+theorem Str_idle {B : Nat} {s t : CState} (hs : StrB B s) (hfrom : s.pc ≠ .finWrite)
     (hpc : t.pc = .idle) (hwr : t.writers = s.writers) (hwb : t.writable = s.writable)
-    (hwg : t.wg = s.wg) (htok : t.m.pool + b2n t.m.chunk.isSome ≤ s.m.pool + chunkTok s) : Str t := by
+    (hwg : t.wg = s.wg) (htok : t.m.pool + b2n t.m.chunk.isSome ≤ s.m.pool + chunkTok s) : StrB B t := by
   apply Str_caller hs hwr hwb hwg hfrom (by rw [hpc]; simp) (by rw [hpc]; simp)
   rw [chunkTok_idle (s := t) (by rw [hpc]; simp)]
   exact htok
 
 /-- a caller block that only moves the caller to another step of the same call -/
-theorem Str_move {s t : CState} (hs : Str s) (hfrom : s.pc = .idle)
+theorem Str_move {B : Nat} {s t : CState} (hs : StrB B s) (hfrom : s.pc = .idle)
     (hpc : t.pc = .pushSend ∨ t.pc = .finSend) (hwr : t.writers = s.writers)
     (hwb : t.writable = s.writable) (hwg : t.wg = s.wg) (hpool : t.m.pool = s.m.pool)
-    (hch : t.m.chunk.isSome = s.m.chunk.isSome) : Str t := by
+    (hch : t.m.chunk.isSome = s.m.chunk.isSome) : StrB B t := by
   have h1 : t.pc ≠ .finWrite := by rcases hpc with h | h <;> rw [h] <;> simp
   have h2 : t.pc ≠ .pushRecv := by rcases hpc with h | h <;> rw [h] <;> simp
   apply Str_caller hs hwr hwb hwg (by rw [hfrom]; simp) h1 h2
   rw [chunkTok_idle h2, chunkTok_idle (s := s) (by rw [hfrom]; simp), hpool, hch]
   exact Nat.le_refl _
 
-theorem Str_cstep {s t : CState} (hs : Str s) (h : cstep s = some t) : Str t := by
+theorem Str_cstep {B : Nat} {s t : CState} (hs : StrB B s) (h : cstep s = some t) : StrB B t := by
   unfold cstep at h
   cases hpc : s.pc <;> simp only [hpc] at h
   · -- idle
@@ -382,7 +387,7 @@ theorem Str_cstep {s t : CState} (hs : Str s) (h : cstep s = some t) : Str t := 
         · rw [hc, live_new]; show s.wg + 1 = _; rw [hs.wg]; rfl
         · rw [hc, atRecv_new]; show wr.buf.length = _; rw [hb, ← hs.chan]; simp [b2n]
         · rw [hc, holding_new]
-          show s.m.pool + _ + wr.buf.length + chunkTok _ ≤ 2
+          show s.m.pool + _ + wr.buf.length + chunkTok _ ≤ B
           rw [hb]; simp only [List.length_append, List.length_cons, List.length_nil, chunkTok, b2n]
           simp at *; omega
         · intro _; rw [hc, holding_new]
@@ -426,7 +431,7 @@ theorem Str_cstep {s t : CState} (hs : Str s) (h : cstep s = some t) : Str t := 
         · rw [hc, live_new]; show s.wg + 1 = _; rw [hs.wg]; rfl
         · rw [hc, atRecv_new]; show wr.buf.length = _; rw [hb, ← hs.chan]; simp [b2n]
         · rw [hc, holding_new]
-          show s.m.pool + _ + wr.buf.length + chunkTok _ ≤ 2
+          show s.m.pool + _ + wr.buf.length + chunkTok _ ≤ B
           rw [hb]; simp only [List.length_append, List.length_cons, List.length_nil, chunkTok, b2n]
           simp at *; omega
         · show wr.cap = 1; rw [hcap]; exact hs.wcap
@@ -457,7 +462,7 @@ theorem Str_cstep {s t : CState} (hs : Str s) (h : cstep s = some t) : Str t := 
       refine ⟨?_, ?_, ?_, ?_, ?_, ?_⟩
       · show s'.wg = _; omega
       · show s'.writable.buf.length = _; omega
-      · rw [htokeq]; show s'.m.pool + _ + s'.writable.buf.length + _ ≤ 2; omega
+      · rw [htokeq]; show s'.m.pool + _ + s'.writable.buf.length + _ ≤ B; omega
       · intro hp; by_cases hd : w.pc = .done <;> simp [hd] at hp
       · show s'.writable.cap = 1; rw [E.wcap]; exact hs.wcap
       · intro hp
@@ -486,9 +491,9 @@ theorem cnt_ge_of_mem (p : Writer → Bool) {s : CState} {k : Nat} {w : Writer}
   have : 0 < s.writers.countP p := List.countP_pos_iff.mpr ⟨w, hm, hp⟩
   unfold cnt; omega
 
-theorem Str_wactor {s s' : CState} {k : Nat} {w w' : Writer} (hs : Str s)
+theorem Str_wactor {B : Nat} {s s' : CState} {k : Nat} {w w' : Writer} (hs : StrB B s)
     (hk : s.writers[k]? = some w) (hw : wstep s w = some (w', s')) :
-    Str { s' with writers := s'.writers.set k w' } := by
+    StrB B { s' with writers := s'.writers.set k w' } := by
   have hwg1 : live w = true → 1 ≤ s.wg := by
     intro hl; rw [hs.wg]; exact cnt_ge_of_mem live hk hl
   have E := wstep_effect hw hwg1
@@ -507,7 +512,7 @@ theorem Str_wactor {s s' : CState} {k : Nat} {w w' : Writer} (hs : Str s)
   refine ⟨?_, ?_, ?_, ?_, ?_, ?_⟩
   · show s'.wg = _; omega
   · show s'.writable.buf.length = _; omega
-  · rw [htok]; show s'.m.pool + _ + s'.writable.buf.length + _ ≤ 2; omega
+  · rw [htok]; show s'.m.pool + _ + s'.writable.buf.length + _ ≤ B; omega
   · intro hp
     have hp' : s.pc = .pushRecv := by rw [← E.pc]; exact hp
     have b4 := hs.recv hp'
@@ -517,7 +522,7 @@ theorem Str_wactor {s s' : CState} {k : Nat} {w w' : Writer} (hs : Str s)
     have hp' : s.pc = .finWrite := by rw [← E.pc]; exact hp
     show s'.inl.pc ≠ .done; rw [E.inl]; exact hs.inlLive hp'
 
-theorem Str_step {s t : CState} {i : Nat} (hs : Str s) (h : step s i = some t) : Str t := by
+theorem Str_step {B : Nat} {s t : CState} {i : Nat} (hs : StrB B s) (h : step s i = some t) : StrB B t := by
   cases i with
   | zero => exact Str_cstep hs h
   | succ k =>
@@ -535,9 +540,9 @@ theorem Str_step {s t : CState} {i : Nat} (hs : Str s) (h : step s i = some t) :
 
 /-- the structural invariant holds in every reachable state: every program, every schedule,
     with or without an injected fault, in both modes -/
-theorem reach_Str {conc : Bool} {c : Nat} {ac acl : Bool} {prog : List Op} {flt : Fault} {s : CState}
-    (h : Reach (sys conc c ac acl prog flt) s) : Str s :=
-  inv_of_reach _ Str (Str_init conc c ac acl prog flt) (fun _ _ _ hs hst => Str_step hs hst) s h
+theorem reach_Str {conc : Bool} {c : Nat} {ac acl : Bool} {prog : List Op} {flt : Fault} {reuse : Bool} {s : CState}
+    (h : Reach (sys conc c ac acl prog flt reuse) s) : Str s :=
+  inv_of_reach _ Str (Str_init conc c ac acl prog flt reuse) (fun _ _ _ hs hst => Str_step hs hst) s h
 
 /-! ### control invariant: what the caller is in the middle of -/
 
@@ -670,10 +675,10 @@ theorem Ctl_step {s t : CState} {i : Nat} (hs : Str s) (hc : Ctl s) (h : step s 
           have : s.pc = .pushSend ∨ s.pc = .pushRecv := by rw [← E.pc]; exact h'
           show ∃ e rest, s'.prog = Op.push e :: rest; rw [E.prog]; exact hc.pushProg this
 
-theorem reach_Ctl {conc : Bool} {c : Nat} {ac acl : Bool} {prog : List Op} {flt : Fault} {s : CState}
-    (h : Reach (sys conc c ac acl prog flt) s) : Ctl s := by
+theorem reach_Ctl {conc : Bool} {c : Nat} {ac acl : Bool} {prog : List Op} {flt : Fault} {reuse : Bool} {s : CState}
+    (h : Reach (sys conc c ac acl prog flt reuse) s) : Ctl s := by
   have : Str s ∧ Ctl s := by
-    refine inv_of_reach _ (fun s => Str s ∧ Ctl s) ⟨Str_init _ _ _ _ _ _, Ctl_trivial (Or.inl rfl)⟩ ?_ s h
+    refine inv_of_reach _ (fun s => Str s ∧ Ctl s) ⟨Str_init _ _ _ _ _ _ _, Ctl_trivial (Or.inl rfl)⟩ ?_ s h
     intro a i b hab hst
     exact ⟨Str_step hab.1 hst, Ctl_step hab.1 hab.2 hst⟩
   exact this.2
